@@ -576,10 +576,10 @@ def check_results(ctx, r, action, names, bad):
     k = 0
     for m, a, ans in calls:
         entries = ans[1] if ans[0] == 'R' else [None]
-        for e in entries:
+        for ei, e in enumerate(entries):
             if k >= len(out_lines) or (e is not None and k > 0 and out_lines[k - 1].startswith('error: ') and ans[0] == 'R'
-                                       and entries.index(e) > 0):
-                culprit = entries[max(entries.index(e) - 1, 0)] if ans[0] == 'R' else None
+                                       and ei > 0):
+                culprit = entries[max(ei - 1, 0)] if ans[0] == 'R' else None
                 bad('results-lost-after:' + (fname(culprit[2]) if culprit else 'call'),
                     'the server answered %d results for %s, printing stopped after %d lines' % (len(entries), m, k))
                 return
@@ -725,20 +725,23 @@ CORPUS = [
     ('start all', [V, ('R', [('a', 'a', 80, 'OK'), ('b', 'b', 30, 'FAILED: b is in an unknown process state'), ('c', 'c', 80, 'OK')])]),
     ('start g:*', [V, ('R', [('g', 'a', 30, 'FAILED: x'), ('g', 'b', 80, 'OK')])]),
     ('start foo', [V, ('F', 30, 'FAILED: foo is in an unknown process state')]),
-    # F23 (open): tail -f of an unknown name / missing log keeps exit status 0
+    # F23 (fixed 47c5aa7): tail -f of an unknown name / missing log kept exit status 0
     ('tail -f nosuch', [V, ('I', 404)]),
     ('maintail -f', [V, ('I', 410)]),
-    # F24 (open): add / remove without a name
+    # F24 (fixed 6713e7c): add / remove without a name printed nothing and exited 0
     ('add', []), ('remove', []), ('add   ', []),
-    # F25 (open): a daemon that is shutting down answers SHUTDOWN_STATE to per-process requests
-    ('start foo bar', [V, ('F', 6, 'SHUTDOWN_STATE')]),
-    ('stop foo bar', [V, ('F', 6, 'SHUTDOWN_STATE')]),
-    ('signal HUP foo bar', [V, ('F', 6, 'SHUTDOWN_STATE')]),
-    ('clear foo bar', [V, ('F', 6, 'SHUTDOWN_STATE')]),
+    # F35 (fixed 4d3c975): a daemon that is shutting down answers SHUTDOWN_STATE to per-process requests; the
+    # client had no wording for it, printed one error: line and dropped the remaining names / entries
+    ('start foo bar', [V, ('F', 6, 'SHUTDOWN_STATE'), ('F', 6, 'SHUTDOWN_STATE')]),
+    ('stop foo bar', [V, ('F', 6, 'SHUTDOWN_STATE'), ('F', 6, 'SHUTDOWN_STATE')]),
+    ('signal HUP foo bar', [V, ('F', 6, 'SHUTDOWN_STATE'), ('F', 6, 'SHUTDOWN_STATE')]),
+    ('clear foo bar', [V, ('F', 6, 'SHUTDOWN_STATE'), ('F', 6, 'SHUTDOWN_STATE')]),
     ('start all', [V, ('R', [('a', 'a', 80, 'OK'), ('b', 'b', 6, 'SHUTDOWN_STATE'), ('c', 'c', 80, 'OK')])]),
-    # F26 (open): update does not look at the stop results of a changed group
+    # F36 (fixed 4198a53): update did not look at the stop results of a changed group
     ('update', [('L', [], ['foo'], []), ('R', [('foo', 'foo', 30, 'FAILED: attempted to kill foo with sig SIGTERM but it wasn\'t running')]), ('V',), ('V',)]),
     ('update', [('L', [], [], ['foo']), ('R', [('foo', 'foo', 30, 'FAILED: x')])]),
+    (' signal BOGUS ALL g:* a:b:c :x', [V, ('V',), ('R', [('g', 'b', 80, 'OK'), ('h', 'a', 6, 'SHUTDOWN_STATE: a'), ('g', 'b', 80, 'OK'), ('g', 'a', 80, 'OK')]), ('V',), ('V',)]),
+    ('stop h:* foo', [V, ('F', 6, 'SHUTDOWN_STATE'), ('F', 6, 'SHUTDOWN_STATE')]),
     # 401 without credentials: the action is attempted a second time
     ('status', [('H', 401), ('H', 401)]),
     ('status', [('H', 401), V, ('P', [('foo', 'foo', 0, 'STOPPED', 'Not started', 0)])]),
@@ -910,8 +913,12 @@ def _retuple(a):
 TECHNIQUE = ("Lean 4 theorems over an executable model of Controller.onecmd and the 17 actions whose fault comparisons, "
              "exit-status constants, tolerated-fault arguments and wording tables are regenerated from supervisorctl.py; "
              "differential correspondence against the real Controller with a scripted proxy; independent monitors")
-LEVEL_TEXT = ("the two implications of the exit-status claim, status-exit-3, one-line-per-result, wording, "
-              "fault-never-silent and no-traceback are proved for every argument list and every answer script of the "
-              "model; the model is tied to the source by regenerated definitions and run against the real client")
+LEVEL_TEXT = ("proved for every action, argument string and answer script of the model, without bound: "
+              "failure_exit_nonzero (exit 0 => no request refused/failed and arguments well-formed) and all_ok_exit_zero "
+              "(well-formed arguments and every request succeeded, incl. the four tolerated answers => exit 0), "
+              "status_exit_3, one_line_per_result, wording_covers_server_codes / wording_matches_table over the "
+              "regenerated tables, fault_never_silent, no_traceback, namespec rules and the request each name selects; "
+              "the model is tied to supervisorctl.py by regenerated comparisons/constants/tables and run against the real "
+              "Controller on a systematic single-failure enumeration plus random scripts")
 LEVEL_NOTE = "trusts Lean's kernel, extract.py, the scripted proxy as a stand-in for the XML-RPC transport; see TRUSTED"
 DESIGN_REF = "DESIGN.md section 6, C20"
